@@ -138,7 +138,7 @@ int main(int argc, char** argv)
     fflush(stdout);
     pid_t pid = fork();
     if (pid == 0) {
-      fclose(stderr);
+      if (not getenv("DRV_DEBUG")) fclose(stderr);
       run_case(dir, v);
       fflush(stdout);
       _exit(0);
